@@ -1,7 +1,7 @@
 (* C04 property theorems.  Only statements here; proofs are in Proofs*.v. *)
 From Coq Require Import List NArith Bool Permutation.
 From Gv Require Import lib.Bytes lib.Json lib.Gql lib.Exec C04.Spec C04.Model
-  C04.ProofsBasic C04.ProofsFlat C04.ProofsMerge C04.ProofsExec C04.ProofsTop C04.ProofsRefute C04.ProofsOverlap.
+  C04.ProofsBasic C04.ProofsFlat C04.ProofsMerge C04.ProofsExec C04.ProofsTop C04.ProofsRefute C04.ProofsOverlap C04.ProofsDirs.
 Import ListNotations.
 
 (* (1) The transcription means something: an operation that passes [spec_valid_b] never makes the
@@ -144,6 +144,66 @@ Print Assumptions merge_fixed_requires_equal_arguments.
 Theorem merge_fixed_keeps_witness : merge_fields witness = witness /\ spec_report S0 witness None = [R_merge].
 Proof. exact (conj fixed_keeps_witness witness_rule). Qed.
 Print Assumptions merge_fixed_keeps_witness.
+
+(* (4') ... and only when their directive lists are equal as MULTISETS: some permutation of the
+   absorbed selection's list is pointwise equal (same directive, same argument names, equal values:
+   [dir_eq_sound]) to the surviving selection's list -- directives may be repeatable, every
+   application is matched with a distinct one.  For fields with sub-selections and inline fragments
+   (mergeInlineFragmentSelections) and for leaf fields (deduplicateFields).  Hence every
+   application that disappears with a merged / dropped selection has an equal application that
+   survives and is validated. *)
+Theorem merge_fixed_requires_equal_directives : forall x y,
+  can_merge go_quirks true x y = true ->
+  exists p, Permutation (sel_dirs y) p /\ Forall2 (fun d d' => go_dir_eqb go_quirks d d' = true) (sel_dirs x) p.
+Proof. exact fixed_merge_requires_equal_directives. Qed.
+Print Assumptions merge_fixed_requires_equal_directives.
+
+Theorem dedup_fixed_requires_equal_directives : forall x y,
+  leaf_equal go_quirks x y = true ->
+  exists p, Permutation (sel_dirs y) p /\ Forall2 (fun d d' => go_dir_eqb go_quirks d d' = true) (sel_dirs x) p.
+Proof. exact fixed_dedup_requires_equal_directives. Qed.
+Print Assumptions dedup_fixed_requires_equal_directives.
+
+Theorem merge_fixed_loses_no_directive : forall x y,
+  can_merge go_quirks true x y = true \/ leaf_equal go_quirks x y = true ->
+  length (sel_dirs x) = length (sel_dirs y) /\
+  forall d', In d' (sel_dirs y) -> exists d, In d (sel_dirs x) /\ go_dir_eqb go_quirks d d' = true.
+Proof. exact fixed_merge_loses_no_directive. Qed.
+Print Assumptions merge_fixed_loses_no_directive.
+
+Theorem dir_eq_sound : forall d d', go_dir_eqb go_quirks d d' = true ->
+  d_name d = d_name d' /\ length (d_args d) = length (d_args d') /\
+  forall k, match assoc k (d_args d), assoc k (d_args d') with
+            | Some v, Some w => go_value_eqb v w = true
+            | None, None => True
+            | _, _ => False
+            end.
+Proof. exact dir_eq_sound_proof. Qed.
+Print Assumptions dir_eq_sound.
+
+(* (4'') The set-semantics variant of the comparison (equal length, every left directive equal to
+   SOME right one; seeded regression C04-m7, never the code of /repo) is refuted: it equates
+   [@t(k:1), @t(k:1)] with [@t(k:1), @t(k:"x")], which no pairwise matching does, and the merge step
+   built on it maps three spec-INVALID documents -- a leaf field, a field with selections, an inline
+   fragment, each followed by a near-duplicate with one ill-typed application of the repeatable
+   @t(k: Int!) -- to spec-VALID ones, so whatever validator runs afterwards accepts them; the model
+   of the code leaves them untouched and the error reaches the validator. *)
+Theorem merge_dirs_as_set_refuted :
+  (exists a b, go_dirs_eqb set_quirks a b = true /\ go_dirs_eqb go_quirks a b = false /\
+     ~ exists p, Permutation b p /\ Forall2 (fun d d' => go_dir_eqb go_quirks d d' = true) a p) /\
+  forall d, In d [w_dirs_leaf; w_dirs_composite; w_dirs_inline] ->
+    spec_report S2 d None = [R_value] /\
+    spec_valid_b S2 (merge_fields_dirs_as_set d) None = true /\
+    merge_fields d = d /\ spec_report S2 (merge_fields d) None = [R_value].
+Proof. exact merge_dirs_as_set_refuted_full. Qed.
+Print Assumptions merge_dirs_as_set_refuted.
+
+(* the hypotheses of (4') are satisfiable: selections with equal directive multisets ARE merged *)
+Example merge_equal_directives_nontrivial :
+  schema_wf_b S2 = true /\ spec_valid_b S2 w_dirs_equal None = true /\
+  merge_fields w_dirs_equal = [mk_query [] [fld fi [] [dfld fid [t_ok; t_ok] []]]] /\
+  leaf_equal go_quirks (dfld fid [t_ok; t_ok] []) (dfld fid [t_ok; t_ok] []) = true.
+Proof. split. exact S2_wf. split. exact (proj1 merge_equal_dirs_witness). split. exact (proj2 merge_equal_dirs_witness). vm_compute. reflexivity. Qed.
 
 (* the hypotheses of the walk theorem are satisfiable by a non-trivial selection set *)
 Example overlap_fixed_siblings_nontrivial :
